@@ -51,7 +51,7 @@ struct Rnd : bxdecay0::i_random {
   double operator()() override { return vx::stream_value(phase, i++); }
 };
 
-static void generator_body(int tid, bool dbd, const char * name, int level, int mode, bool ga, double mdl_aperture_deg = -1.0)
+static void generator_body(int tid, bool dbd, const char * name, int level, int mode, bool ga, double mdl_aperture_deg = -1.0, double w1 = -1.0, double w2 = -1.0)
 {
   using bxdecay0::decay0_generator;
   try {
@@ -67,6 +67,7 @@ static void generator_body(int tid, bool dbd, const char * name, int level, int 
     if (dbd) {
       g.set_decay_dbd_level(level);
       g.set_decay_dbd_mode((bxdecay0::dbd_mode_type)mode);
+      if (w1 >= 0) g.set_decay_dbd_esum_range(w1, w2);
     }
     Rnd r;
     r.phase = 100 + tid;
@@ -150,6 +151,20 @@ int main(int argc, char ** argv)
     });
     for (auto & t : th) t.join();
     if (!ga_saved.empty()) setenv("BXDECAY0_DBD_GA_DATA_DIR", ga_saved.c_str(), 1);
+  } else if (group == 5) {
+    // initialisations that run the nested quadratures (dgmlt1 over dgmlt2, gauss) at once: every mode whose spectrum needs
+    // them (4, 5, 6, 8, 13, 15, 16, 19, and 10 with gauss alone), with and without an energy window
+    std::vector<std::thread> th;
+    th.emplace_back([] { generator_body(0, true, "Mo100", 0, 4, false, -1.0, 2.0, 3.0); });
+    th.emplace_back([] { generator_body(1, true, "Se82", 0, 5, false); });
+    th.emplace_back([] { generator_body(2, true, "Nd150", 0, 6, false, -1.0, 0.5, 2.5); });
+    th.emplace_back([] { generator_body(3, true, "Mo100", 1, 8, false); });
+    th.emplace_back([] { generator_body(4, true, "Ca48", 0, 13, false); });
+    th.emplace_back([] { generator_body(5, true, "Xe136", 0, 19, false, -1.0, 1.0, 2.0); });
+    th.emplace_back([] { generator_body(6, true, "Mo100", 1, 16, false); });
+    th.emplace_back([] { generator_body(7, true, "Te130", 0, 15, false); });
+    th.emplace_back([] { generator_body(8, true, "Cd106", 0, 10, false, -1.0, 0.25, 0.75); });
+    for (auto & t : th) t.join();
   } else
   {
     std::vector<std::thread> th;
@@ -188,6 +203,9 @@ int main(int argc, char ** argv)
     th.emplace_back([] { generator_body(12, false, "Co60", 0, 0, false, 5.0); });   // each with its own direction lock
     th.emplace_back([] { generator_body(13, false, "Co60", 0, 0, false, 60.0); });
     th.emplace_back([] { generator_body(14, true, "Mo100", 0, 1, false, 20.0); });
+    th.emplace_back([] { generator_body(20, true, "Mo100", 0, 4, false, -1.0, 2.0, 3.0); }); // nested quadratures from several threads
+    th.emplace_back([] { generator_body(21, true, "Se82", 0, 5, false); });
+    th.emplace_back([] { generator_body(22, true, "Mo100", 1, 16, false); });
     for (auto & t : th) t.join();
   }
   printf("done %d repetitions\n", reps);
